@@ -139,6 +139,13 @@ class Interpreter(BaseInterpreter[TContext, TEvent]):
         #: a macrostep completes without having done so. Bounds a runaway
         #: `raise` without ever throttling external `send()` traffic.
         self._raise_depth: int = 0
+        #: Chain depth of queued self-raised events, by `id(event)`: an event
+        #: the machine sends to itself while processing an event of depth d has
+        #: depth d+1; events from outside have depth 0 (and no entry).
+        #: `maxIterations` bounds the LENGTH of one chain - a counter of all
+        #: self-raised events also cut a batch of short chains.
+        self._event_depths: Dict[int, int] = {}
+        self._current_depth: int = 0
         #: True while `_run_event_loop` is inside `_process_event...`.
         self._processing: bool = False
 
@@ -455,7 +462,9 @@ class Interpreter(BaseInterpreter[TContext, TEvent]):
                 # 📬 Wait indefinitely for the next event from the queue.
                 event = await self._event_queue.get()
 
-                if self._raise_depth > limit:
+                depth = self._event_depths.pop(id(event), 0)
+                if depth > limit:
+                    # ✂️ Link number `limit + 1` of ONE self-raised chain.
                     logger.error(
                         "🛑 Exceeded %d chained self-raised events on '%s'. "
                         "This means an action raises the event that triggers "
@@ -464,7 +473,6 @@ class Interpreter(BaseInterpreter[TContext, TEvent]):
                         limit,
                         self.id,
                     )
-                    self._raise_depth = 0
                     self._event_queue.task_done()
                     continue
 
@@ -498,11 +506,8 @@ class Interpreter(BaseInterpreter[TContext, TEvent]):
                 #    here; we log and carry on with the next event.
                 try:
                     self._processing = True
-                    depth_before = self._raise_depth
+                    self._current_depth = depth
                     await self._process_event_and_transient_transitions(event)
-                    # ✅ A macrostep that raised nothing ends the chain.
-                    if self._raise_depth == depth_before:
-                        self._raise_depth = 0
                 except asyncio.CancelledError:
                     raise
                 except Exception as exc:
@@ -516,6 +521,7 @@ class Interpreter(BaseInterpreter[TContext, TEvent]):
                     )
                 finally:
                     self._processing = False
+                    self._current_depth = 0
 
                 self._event_queue.task_done()
 
@@ -833,6 +839,7 @@ class Interpreter(BaseInterpreter[TContext, TEvent]):
             #    calls never pass through here.
             if actor is self and self._processing:
                 self._raise_depth += 1
+                self._event_depths[id(target_event)] = self._current_depth + 1
             await self._send_to_actor(actor, target_event)
             return
 
